@@ -1135,21 +1135,26 @@ func (app *App) init() *App {
 // the app, which if not set is the DefaultErrorHandler.
 func (app *App) ErrorHandler(ctx Ctx, err error) error {
 	var (
-		mountedErrHandler  ErrorHandler
-		mountedPrefixParts int
+		mountedErrHandler ErrorHandler
+		mountedPrefixLen  int
 	)
 
+	// Pick the handler of the innermost (longest mount prefix) sub-app that configured one and
+	// whose prefix contains the path on a segment boundary. Two distinct prefixes that both
+	// contain the same path differ in length, so the result does not depend on map order.
+	path := ctx.Path()
 	for prefix, subApp := range app.mountFields.appList {
-		if prefix != "" && strings.HasPrefix(ctx.Path(), prefix) {
-			parts := len(strings.Split(prefix, "/"))
-			if mountedPrefixParts <= parts {
-				if subApp.configured.ErrorHandler != nil {
-					mountedErrHandler = subApp.config.ErrorHandler
-				}
-
-				mountedPrefixParts = parts
-			}
+		if prefix == "" || subApp.configured.ErrorHandler == nil || len(prefix) <= mountedPrefixLen {
+			continue
 		}
+		if !strings.HasPrefix(path, prefix) {
+			continue
+		}
+		if len(path) > len(prefix) && path[len(prefix)] != '/' && prefix[len(prefix)-1] != '/' {
+			continue
+		}
+		mountedErrHandler = subApp.config.ErrorHandler
+		mountedPrefixLen = len(prefix)
 	}
 
 	if mountedErrHandler != nil {
